@@ -247,6 +247,14 @@ def check_wrapper_against(desc, m, clause, tpath, fails, body_kind):
         fails.append(dict(clause=clause + ".ret", detail="%s: return type %s, declared %s" % (where, sx.show(fp["ret"]), desc["ret"])))
     if (fp["vis"] == "pub") != desc["pub"]:
         fails.append(dict(clause=clause + ".vis", detail=where))
+    # pointer structure of every parameter and of the return type: the chain of const / mut qualifiers as declared
+    quals = lambda text: _re.findall(r"\*\s*(const|mut)\b", text)
+    got_q = [quals(" ".join(sx.show(y) for y in p_[2][1:])) for p_ in fp["params"] if isinstance(p_, list) and p_[0] == "arg" and len(p_) > 2]
+    want_q = [quals(t_) for _, t_ in desc["args"]]
+    if len(got_q) == len(want_q) and got_q != want_q:
+        fails.append(dict(clause=clause + ".param_pointers", detail="%s: pointer qualifiers %s, declared %s" % (where, got_q, want_q)))
+    if fp["ret"] and desc["ret"] and quals(" ".join(sx.show(y) for y in fp["ret"])) != quals(desc["ret"]):
+        fails.append(dict(clause=clause + ".ret_pointers", detail="%s: returns %s, declared %s" % (where, " ".join(sx.show(y) for y in fp["ret"]), desc["ret"])))
     body = " ".join(sx.show(x) for x in fp["body"])
     call_want = []
     if desc["selfkind"] == "&self":
@@ -612,6 +620,8 @@ def public_assoc(exp, tpath, memo):
             cands += [d["name"] for d in (bt.get("slot_descs") or []) if d and d["pub"]]
         for g in cands:
             name = g if g not in used else "%s_%s" % (fname, g)
+            if name in used:
+                memo.setdefault("__collisions__", set()).add(tpath)      # finding F24: the renamed name is taken too
             used.add(name)
             out.append((name, fname, g))
     for d in t["impls"]:
@@ -639,6 +649,8 @@ def assoc_docs(exp, tpath, memo):
             cands += [(d["name"], d["doc"]) for d in (bt.get("slot_descs") or []) if d and d["pub"]]
         for g, doc in cands:
             name = g if g not in used else "%s_%s" % (fname, g)
+            if name in used:
+                memo.setdefault("__collisions__", set()).add(tpath)
             used.add(name)
             out.append((name, fname, g, doc))
     for d in t["impls"]:
@@ -647,6 +659,24 @@ def assoc_docs(exp, tpath, memo):
         used.add(d["name"])
     memo[tpath] = out
     return out
+
+
+def rename_collides(exp):
+    """does the description make the one-step clash renaming of inherited functions produce a name that is taken
+    as well (finding F24: two functions of one name are emitted)?  Returns the set of such types."""
+    memo = {}
+    for tpath in (exp or {}).get("types", {}):
+        public_assoc(exp, tpath, memo)
+    hit = set(memo.get("__collisions__", set()))
+    # a type inheriting from one of them inherits the duplicate as well
+    changed = True
+    while changed:
+        changed = False
+        for tpath, t in exp["types"].items():
+            if tpath not in hit and any(b in hit for _, b in (t.get("base_fields") or [])):
+                hit.add(tpath)
+                changed = True
+    return hit
 
 
 def hierarchy(exp, tpath, prefix=()):
@@ -666,8 +696,14 @@ def mon_c07(res):
     if res.hv[0] != "ok" or not exp:
         return fails
     memo = {}
+    collide = rename_collides(exp)
     for tpath, t in exp["types"].items():
         if not t.get("base_fields"):
+            continue
+        if tpath in collide:
+            # finding F24: two functions of one name are emitted for this type; which one a lookup by name finds is moot
+            fails.append(dict(clause="C07.rename_collision", kf="KF_rename_collides",
+                              detail="%s: the renamed name of an inherited function is taken as well" % tpath))
             continue
         f, tname = file_of_type(res, tpath)
         ms = methods_of(f, tname)
@@ -922,6 +958,14 @@ def mon_c14(res):
             last = items[-1] if items else None
             if not (last and last[0] == "fn" and str(last[4]).startswith("epi_")):
                 fails.append(dict(clause="C14.epilogue_last", detail="%s: last item %s" % (rel, sx.show(last)[:80] if last else None)))
+        if m.get("pro_seq"):
+            got = [str(x[3]) for x in items[:len(m["pro_seq"])] if x[0] == "const"]
+            if got != m["pro_seq"]:
+                fails.append(dict(clause="C14.prologue_order", detail="%s: the file starts with %s, the prologue statements are %s in this order" % (rel, got, m["pro_seq"])))
+        if m.get("epi_seq"):
+            got = [str(x[4]) for x in items[-len(m["epi_seq"]):] if x[0] == "fn"]
+            if got != m["epi_seq"]:
+                fails.append(dict(clause="C14.epilogue_order", detail="%s: the file ends with %s, the epilogue statements are %s in this order" % (rel, got, m["epi_seq"])))
     return fails
 
 
@@ -1060,7 +1104,7 @@ PROPS["C11"] = dict(
     level_note="Trusted: Coq kernel; model validated by this run's correspondence. Scope note: a module path that is also an item path (a directory and a type sharing a name) is outside the theorem's hypothesis.",
 )
 
-INHERIT_PROFILE = dict(FUNC_PROFILE, miss=0.1, p_slot_mut=0.35, p_base=0.75, p_vftable=0.6, types=(2, 6), vfuncs=(0, 4), p_impl=0.7, impl_fns=(0, 3),
+INHERIT_PROFILE = dict(FUNC_PROFILE, p_fn_name_reuse=0.3, miss=0.1, p_slot_mut=0.35, p_base=0.75, p_vftable=0.6, types=(2, 6), vfuncs=(0, 4), p_impl=0.7, impl_fns=(0, 3),
                        fields=(0, 2), p_index=0.3, modules=(1, 2))
 
 PROPS["C04"] = dict(
@@ -1116,7 +1160,7 @@ PROPS["C07"] = dict(
 PROPS["C15"] = dict(
     exec_oracle=True,
     profile=dict(p_singleton=0.6, extern_values=(1, 4), enums=(1, 3), types=(1, 3), externs=(0, 2), p_vftable=0.1, p_impl=0.1, p_base=0.1,
-                 p_backend=0.0, fields=(0, 3)),
+                 p_backend=0.0, fields=(0, 3), modules=(1, 3), p_extern_only_module=0.25),
     n=(400, 6000), corpus=["common", "C15"],
     aspects=["verdict", "singleton", "extern", "items"],
     monitors=[mon_c15],
@@ -1145,7 +1189,7 @@ PROPS["C17"] = dict(
     level_note="Trusted: Coq kernel; model validated by this run's correspondence; doc lines containing a line break are outside the doc theorem's hypothesis (they split, as rustdoc would).",
 )
 PROPS["C14"] = dict(
-    profile=dict(modules=(1, 4), p_nested_mod=0.5, p_backend=0.6, extern_values=(0, 3), externs=(0, 2), types=(0, 4), enums=(0, 2), p_vftable=0.4),
+    profile=dict(modules=(1, 4), p_nested_mod=0.5, p_backend=0.6, extern_values=(0, 3), externs=(0, 2), types=(0, 4), enums=(0, 2), p_vftable=0.4, p_extern_only_module=0.15),
     n=(400, 6000), corpus=["common", "C14"],
     aspects=["verdict", "fileset", "items", "opaque", "extern", "header"],
     monitors=[mon_c14],
@@ -1369,7 +1413,7 @@ def match_finding(findings, pid, fail):
 
 # which properties a near-miss of the generator belongs to: accepting it violates them
 MISS_PROPS = {
-    "overlap by one": ["C01", "C02"], "address off alignment by one": ["C01", "C02"], "zero-sized field off alignment by one": ["C01", "C02"], "size one too small": ["C02"],
+    "overlap by one": ["C01", "C02"], "address off alignment by one": ["C01", "C02"], "zero-sized field off alignment by one": ["C01", "C02"], "default alignment below a member's alignment": ["C01", "C02"], "size one too small": ["C02"],
     "alignment not a power of two": ["C02", "C13"], "packed and align": ["C02"],
     "vfunc index below position": ["C04"], "vftable size below slots": ["C04"],
     "impl function without address": ["C05"], "unresolvable parameter type": ["C05", "C10"], "unresolvable return type": ["C05", "C10"], "extern value without address": ["C15"], "extern type without align": ["C02"],
